@@ -16,15 +16,25 @@ from harness import zoo
 EPS = np.finfo(np.float64).eps
 
 
+def _jacobian(f, x):
+    """Forward mode first: the reverse-mode Jacobian (a vmapped backward pass) of a 3-dimensional spline coupling flow in
+    the scanned inverse direction makes XLA's CPU code segfault in this environment (dmesg: tf_XLAEigen segfault at 0);
+    reverse mode only where forward mode is not defined."""
+    try:
+        return jax.jacfwd(f)(x)
+    except Exception:  # noqa: BLE001
+        return jax.jacrev(f)(x)
+
+
 @eqx.filter_jit
 def _jac_jit(b, x, c):
     # the bijection is an argument, so the Jacobian is compiled once per bijection, not once per point
-    return jax.jacobian(lambda v: b.transform(v, c))(x)
+    return _jacobian(lambda v: b.transform(v, c), x)
 
 
 @eqx.filter_jit
 def _jac_inv_jit(b, y, c):
-    return jax.jacobian(lambda v: b.inverse(v, c))(y)
+    return _jacobian(lambda v: b.inverse(v, c), y)
 
 
 @eqx.filter_jit
@@ -265,13 +275,21 @@ def case_c02(rep, spec):
                     rep.add("autodiff_tie_resolved_by_finite_differences")
             except Exception:  # noqa: BLE001
                 pass
-        if not ok and p.get("kink") and "sides" in p:
-            # a one-ulp neighbour can itself tie (its image lands exactly on the clip bound) and finite differences are too
-            # coarse for a spline whose derivative varies by 1e5 per unit: extrapolate the autodiff log-det linearly from
-            # 2^10 and 2^11 ulps inside each side
+        if not ok:
+            # the point (or its one-ulp neighbour) can tie -- its image lands exactly on a clip bound -- and finite differences
+            # are too coarse for a spline whose derivative varies by 1e5 per unit: extrapolate the autodiff log-det linearly
+            # from 2^10 and 2^11 ulps away, along every coordinate direction (a wrong log-det differs from all of them)
             try:
-                for sd in p["sides"]:
-                    d1 = np.asarray(sd, float) - np.asarray(x, float)
+                xf = np.asarray(x, float)
+                dirs = []
+                for j in range(xf.size):
+                    for sgn in (-1.0, 1.0):
+                        d = np.zeros(xf.size)
+                        d[j] = sgn * np.spacing(max(abs(xf.ravel()[j]), 1e-300))
+                        dirs.append(d.reshape(xf.shape))
+                for d1 in dirs:
+                    if ok:
+                        break
                     ra = _slogdet(b, np.asarray(x, float) + d1 * 2**10, c, z["bisect"])[0]
                     rb = _slogdet(b, np.asarray(x, float) + d1 * 2**11, c, z["bisect"])[0]
                     if abs(ld - (2 * ra - rb)) <= tol + 0.05 * abs(ra - rb):
